@@ -61,6 +61,7 @@ class Interp:
         self.memo = {}
         self.paths = 0
         self.record_calls = tuple(record_calls)
+        self.oracle = None   # optional: decides comparisons between symbolic scalars (sa/order.py)
         self.models = dict(MODELS)
         if models:
             self.models.update(models)
@@ -256,6 +257,10 @@ class Interp:
                     pass
             if a[0] == "c" and b[0] == "c" and op in ("eq", "ne"):
                 return c((a[1] == b[1]) == (op == "eq"))
+            if self.oracle is not None and op in ("eq", "ne", "lt", "le", "gt", "ge"):
+                r = self.oracle(op, a, b)
+                if r is not None:
+                    return c(bool(r))
             if rv.get("checked"):
                 return ("t", (("op", op, (a, b)), c(False)))
             return ("op", op, (a, b))
